@@ -30,7 +30,8 @@ ASSUMPTIONS = [
 
 @st.composite
 def cases(draw, tier="quick"):
-    b = draw(history_program(max_steps=12 if tier == "quick" else 20, max_elems=12))
+    b = draw(history_program(max_steps=12 if tier == "quick" else 20, max_elems=12,
+                             flagged_views="const_only" if draw(st.integers(0, 2)) == 0 else False))
     r = b.ref
     live = [h for h in r.env if r.is_tensor[h] and not r.isint[h] and r.env[h].size > 0]
     nonconst = [h for h in live if not r.const[h]]
@@ -81,6 +82,9 @@ def classify(prog, L, ref):
             labels.add("nonconst_value_operand")
         if s["kind"] == "out" and s["p"].get("where") is not None:
             labels.add("where_mask")
+        tstmt = next((x for x in stmts if x.get("h") == s["target"]), {})
+        if tstmt.get("constant") is True:
+            labels.add("write_through_constant_view")
         if s["kind"] == "setitem":
             for c in s["p"]["index"]["c"]:
                 if c[0] == "a":
@@ -92,11 +96,13 @@ def classify(prog, L, ref):
     return nontrivial, sorted(labels)
 
 
-def check_case(case, rec=None):
+def check_case(case, rec=None, model="memory"):
+    """model="memory": the property's reading (a write through a constant-flagged view reaches the base like any
+    other write).  model="memory-sever" is only used by the known-finding predicate in vf/known.py."""
     prog, L = case["prog"], case["L"]
     reset_mygrad()
-    run, ref, mm = history.run_lockstep(prog, check_each=False)
-    exp = ir.expected_after_backward(prog, L)
+    run, ref, mm = history.run_lockstep(prog, check_each=False, flag_views="memory")
+    exp = ir.expected_after_backward(prog, L, flag_views=model)
     if rec is not None:
         nontrivial, labels = classify(prog, L, exp.ref)
         if exp.kinks:
